@@ -19,6 +19,8 @@ def main():
     except ValueError:
         seed = 0
     sys.setrecursionlimit(20000)
+    import warnings
+    warnings.filterwarnings("ignore")
     from . import driver
     if a.replay:
         sys.exit(driver.run_replay(a.pid, a.replay))
